@@ -23,7 +23,7 @@ RACEFLAG=""; [ "${RACE:-}" = "1" ] && RACEFLAG="-race"
 export GORACE="halt_on_error=0 log_path=$W/race"
 cd /verif && go test -c $RACEFLAG -modfile="$W/go.mod" -overlay "$W/ov/overlay.json" -o "$W/sim.test" ./simtest/$P || { echo "harness does not build against mutant"; exit 2; }
 mkdir -p "$W/replays"
-VERIF_FIRST=${FIRST:-0} VERIF_PROP=$PROP VERIF_COUNT=$RUNS VERIF_SCENARIO=$SCEN VERIF_REPLAY_DIR="$W/replays" VERIF_KNOWN=/verif/known_findings.txt VERIF_OUT="$W/out.json" timeout ${MUT_TIMEOUT:-2400} "$W/sim.test" -test.run '^TestWorker$' -test.timeout 0 >"$W/log" 2>&1 || { [ -s "$W/out.json" ] || { tail -30 "$W/log"; echo "worker crashed"; exit 2; }; }
+GOMAXPROCS=2 VERIF_FIRST=${FIRST:-0} VERIF_PROP=$PROP VERIF_COUNT=$RUNS VERIF_SCENARIO=$SCEN VERIF_REPLAY_DIR="$W/replays" VERIF_KNOWN=/verif/known_findings.txt VERIF_OUT="$W/out.json" timeout ${MUT_TIMEOUT:-2400} "$W/sim.test" -test.run '^TestWorker$' -test.timeout 0 >"$W/log" 2>&1 || { [ -s "$W/out.json" ] || { tail -30 "$W/log"; echo "worker crashed"; exit 2; }; }
 python3 - "$W/out.json" <<'PY'
 import json,sys
 d=json.load(open(sys.argv[1]))
